@@ -121,6 +121,7 @@ func stateOfField(sel *ssa.Select, f *types.Var) int {
 
 func runC13(c *Ctx) {
 	r := c.R
+	defer ruleKeyPlumbing(c, "R13.6")
 	r.NotDecided = append(r.NotDecided,
 		"observed isolation between channels under real stalls (timing)",
 		"that the transport error which made a write fail is also seen by the reader (environment)")
@@ -463,6 +464,7 @@ func ruleQueue(c *Ctx, rule string, minCap int64) {
 func runC11(c *Ctx) {
 	r := c.R
 	defer borrowRules(c, "C12", runC12, map[string]string{"R12.4": "R11.7"}, "a channel's writer must have ended before the transport is handed to a successor channel, or two writers interleave partial frames on it")
+	defer ruleKeyPlumbing(c, "R11.9")
 	defer ruleCodecNoSharedWrites(c, "R11.8", "C11: concurrent Write* calls encode in the callers' goroutines through the one shared codec; each item on the wire is what one caller submitted")
 	r.NotDecided = append(r.NotDecided,
 		"exactly-once / FIFO as properties of executions under all interleavings",
@@ -861,6 +863,7 @@ func runC10(c *Ctx) {
 	r := c.R
 	defer rulePeekLifetime(c, "R10.8", "C10: the frame event of a valid frame carries that frame's id and payload however the transport segmented it")
 	defer ruleCodecNoSharedWrites(c, "R10.9", "C10: a frame event on one channel never carries bytes that arrived on another")
+	defer borrowRules(c, "C05", runC05, map[string]string{"R5.4": "R10.10"}, "a rejection that leaves the rest of the rejected frame in the stream lets its bytes start a bogus frame that swallows the next valid one")
 	r.NotDecided = append(r.NotDecided,
 		"the event order actually observed under real interleavings of k channels",
 		"'nothing more arrives after close' when the node itself is closed first (exempted by the statement)",
